@@ -12,6 +12,7 @@ Block format (one per call of `set_time_metadata`):
   mean tBODY tBODY ...
   var none | var some tBODY ...
   end
+  (or: case <id> / methodvar <method> / end  ->  `<id> nodeVar=<0|1> mutVar=<0|1>`)
 Reply: `<id> <outcome> <schema id|none> <cell> <cell> ...` with cell = `-` or `+k=tBODY,k=tBODY`
 (dict order), or `<id> bad-op`.
 -/
@@ -58,6 +59,14 @@ def showOutcome : Outcome → String
 
 def runCase (blk : List (List String)) : Option String := do
   let id ← (← field blk "case").head?
+  -- `methodvar <method>`: which tables get a variance from this method (Model: Method.nodeVar / mutVar)
+  if let some [m] := field blk "methodvar" then
+    let meth ← (match m with
+      | "variational_gamma" => some Method.variationalGamma
+      | "inside_outside" => some Method.insideOutside
+      | "maximization" => some Method.maximization
+      | _ => none)
+    return (id ++ " nodeVar=" ++ (if meth.nodeVar then "1" else "0") ++ " mutVar=" ++ (if meth.mutVar then "1" else "0"))
   let sm ← match (← field blk "sm") with
     | ["off"] => some SetMd.off | ["auto"] => some SetMd.auto | ["force"] => some SetMd.force
     | _ => none
